@@ -9,6 +9,7 @@ import (
 
 	"github.com/casbin/casbin/v2"
 	fileadapter "github.com/casbin/casbin/v2/persist/file-adapter"
+	stringadapter "github.com/casbin/casbin/v2/persist/string-adapter"
 	"github.com/casbin/casbin/v2/util"
 
 	"verif/harness/internal/mem"
@@ -145,6 +146,24 @@ func init() {
 		decAfter, _ := e.Enforce("alice", "data1", "read")
 		return err != nil && (fmt.Sprint(gBefore) != fmt.Sprint(gAfter) || decBefore != decAfter),
 			fmt.Sprintf("DeleteUser(alice) with its second adapter call failing returned %v; grouping rules before=%v after=%v; Enforce(alice,data1,read) before=%v after=%v", err, gBefore, gAfter, decBefore, decAfter)
+	}
+	// D43: with a regular-expression built-in registered as the role manager's matching function, a grouping
+	// line whose role name is not a valid expression makes LoadPolicy panic (AddLink -> Match -> RegexMatch
+	// panics; Enforce recovers from the same panic, loading does not)
+	witnesses["D43-load-panics-on-bad-pattern-role"] = func() (shows bool, detail string) {
+		e, err := casbin.NewEnforcer(mustModel(rbacText))
+		if err != nil {
+			return false, err.Error()
+		}
+		e.AddNamedMatchingFunc("g", "keyMatch2", util.KeyMatch2)
+		e.SetAdapter(stringadapter.NewAdapter("p, book_admin, data1, read\ng, alice, /book/(\n"))
+		defer func() {
+			if r := recover(); r != nil {
+				shows, detail = true, fmt.Sprintf("LoadPolicy of the line \"g, alice, /book/(\" with keyMatch2 as matching function panicked: %v", r)
+			}
+		}()
+		err = e.LoadPolicy()
+		return false, fmt.Sprintf("LoadPolicy returned %v", err)
 	}
 	// D41 (fixed): with JSON requests enabled enforce() wrote the parsed maps into the caller's request slice
 	// (a data race between concurrent BatchEnforce callers sharing a batch: the stress stage's JSON world)
